@@ -147,3 +147,15 @@ Lemma caches_hand_out_copies :
   forallb (String.eqb "maps.Clone") C08Caches.dq_get_returns = true /\
   forallb (String.eqb "clone") C08Caches.resolver_get_returns = true.
 Proof. split; reflexivity. Qed.
+
+(* ---- round 2: SetRepositories is the LAST step that may change the filesystem before the serialiser ------- *)
+Lemma c10_set_last_before_serialise :
+  forallb (fun v => set_last_before_serialise c10_steps (val_fun v)) (all_vals (dedup (conds_of c10_steps))) = true.
+Proof. vm_compute. reflexivity. Qed.
+
+Theorem repositories_generated_any other cond c st r :
+  final_repos_any other c10_steps c10_setrepos_sources cond c st = Some (Ok r) ->
+  r = canon_runtime_repos (rc_runtime c) (rc_xruntime c).
+Proof.
+  exact (final_repos_any_is_runtime c10_steps c10_setrepos_sources c10_set_last_before_serialise other cond c _ (setrepos_sources_runtime c) st r).
+Qed.
